@@ -1,4 +1,7 @@
 import MpireModel.Drive.Chunk
+import MpireModel.Drive.Worker
+import MpireModel.Drive.Proto
+import MpireModel.Drive.Dispatch
 /- One line in, one line out. -/
 namespace Mpire.Drive
 
@@ -13,6 +16,12 @@ def handle (line : String) : String :=
       | "nchunks" => handleNChunks fs
       | "numpy"   => handleNumpy fs
       | "derive"  => handleDerive fs
+      | "worker"  => handleWorker fs
+      | "proto"   => handleProto fs
+      | "imap"    => handleImap fs
+      | "msort"   => handleMapSort fs
+      | "disp"    => handleDisp fs
+      | "assign"  => handleAssign fs
       | _ => none
     r.getD "bad-op"
 
